@@ -185,6 +185,15 @@ func c08Run(c *Ctx) {
 		cand := [][2]string{{x, x + "-only"}}
 		if !strings.HasSuffix(x, "+") {
 			cand = append(cand, [2]string{x + "+", x + "-or-later"})
+			// the same pairs with the listed id in another letter case (the suffix stays as documented)
+			if lo := strings.ToLower(x); lo != x {
+				cand = append(cand, [2]string{lo, lo + "-only"}, [2]string{lo + "+", lo + "-or-later"})
+			}
+			if _, inTable := pos[NormTerm(x).ID]; inTable {
+				if up := strings.ToUpper(x); up != x {
+					cand = append(cand, [2]string{up, up + "-only"}, [2]string{up + "+", up + "-or-later"})
+				}
+			}
 		} else {
 			cand = [][2]string{{x, strings.TrimSuffix(x, "+") + "-or-later"}}
 		}
